@@ -169,6 +169,57 @@ CLAIMED["C03"] = dict(
     note="Combinations NumPy rejects with a dtype TypeError (bitwise on floats, // % on complex) are outside the statement's "
          "'shape, axis or index errors' (counted); what pytato rejects and NumPy accepts is allowed (counted).")
 
+CLAIMED["C09"] = dict(
+    technique="Lean 4 theorems (contract checker soundness, batch levels sound+complete, tag numbering consistent/injective/"
+              "deterministic) + real partitions of thread-ranks on a controlled fake MPI fed to the verified checker",
+    text="Proved (model Pt.Dist): checkWF_sound and wf_clauses (the seven clauses of the statement + uniqueness); the Kahn-peeling "
+         "batch model is sound and complete for 'a ranking exists' (levels_respect_deps / levels_complete); number_tags: total, "
+         "injective, distinct (src,dst,tag) keep distinct ids, result is a function of the flattened gathered sequence only. Tie: "
+         "800 (quick) / 16000 (thorough) seeded multi-rank programs (1..4 ranks, 0..6 messages, rings/stars/chains/forwarding/"
+         "send holders/pass-through outputs, materialised intermediates): the real find_distributed_partition + "
+         "verify_distributed_partition + number_distributed_tags run unmodified on thread-ranks of a fake mpi4py; every rank's "
+         "DistributedGraphPartition is serialised and checkWF runs on the union in ptdriver; an independent Python clause oracle; "
+         "parts vs broadcast batches vs the Lean batch model; integer tags across ranks vs numberTags. Partial: the partitioner "
+         "itself (mkPartition/partition_wf) is not modelled — tied per instance; ranks are threads of one interpreter (different "
+         "hash seeds per rank: C17).",
+    design_ref="§5 C09", note="MPI replaced by a controlled scheduler; _DistributedInputReplacer validated per instance.")
+CLAIMED["C10"] = dict(
+    technique="Lean 4 theorems (diagnose sound and complete w.r.t. Valid; cyclic exact) + exhaustive single-fault injection at every "
+              "communication operation of real programs (+ targeted/seeded pairs) with schedule exploration of anything let through",
+    text="Proved (model): diagnose_sound (Valid g -> ok), diagnose_complete (not Valid g -> error of the matching class), "
+         "violated_exact, cyclic_exact (cyclic g = true <-> not Acyclic g), acyclic_no_cycle. Tie: for every valid base program "
+         "14 fault kinds (drop/duplicate/retag/redirect a send or a receive, self-send, send to nowhere, cross-rank cycle, ...) at "
+         "EVERY communication operation, both-ends pairs for every message and seeded pairs: the per-rank outcome of the real "
+         "find_distributed_partition/verify_distributed_partition (exception class or partition) vs the model's diagnose; "
+         "everything the real code lets through is executed under the schedule explorer (must not deadlock or mis-deliver); a "
+         "valid program rejected is a violation. Partial: per-rank control flow (findOutcome/verifyOutcome) is model-only.",
+    design_ref="§5 C10", note="A receive from a non-existent rank is only diagnosed by verify on the root (modelled so).")
+CLAIMED["C13"] = dict(
+    technique="Lean 4 theorems over a heap model of memoised mappers (visits once, reaches all, cached = tree, sharing kept, identity) "
+              "+ kernel-checked children tables regenerated by instrumenting every real mapper + behavioural correspondence",
+    text="Proved (model, any WF heap/root/mapper, no bound): visits_once (log Nodup however many paths), reaches_all (j in log <-> "
+         "reachable via the mapper's edges), reach_complete, cached_eq_tree, log_topological, fuel_irrelevant (fuel is not a bound), "
+         "sharing_kept (one result per visited node, heap only grows by |log|, input prefix untouched), identity_same. Kernel-"
+         "checked each run: children_tables_complete over the table regenerated by instrumenting 35 real mappers/functions x 33 "
+         "probe kinds (1137 rows; every stored edge kind incl. shape components, indices, CSR parts, send payloads, bindings), with "
+         "exclusions only from the statement (function bodies for mappers documented not to enter them) and the committed known "
+         "findings. Tie: invocation counts and result identities of the real mappers on diamonds, ladders of depth 10..60 (timeout "
+         "catches re-traversal), one node through every edge kind, with/without structurally equal duplicates, vs the Lean model "
+         "on the reflectively serialised heap; collisions must be reported, identity transforms return the argument. Not proved: "
+         "collision_flagged (behavioural only).",
+    design_ref="§5 C13", note="Loud refusals of a node kind are recorded and judged by C20.")
+CLAIMED["C20"] = dict(
+    technique="Lean 4 theorems about the modelled analyses (users/preds converse with multiplicity, topo order valid, counts, tag "
+              "count, materialised set) + kernel-checked users tables + correspondence with all real analysis functions",
+    text="Proved (model): users_converse (v in users u <-> reachable v and u in preds v; list and set versions), users_multiplicity, "
+         "topo_valid (duplicate-free, exactly the reachable counted nodes, no node before a node it depends on), count_distinct / "
+         "typeCount_spec / count_distinct_structural, tagcount_eq (the cache-0 trick counts each tagged node once), "
+         "materialized_spec. Kernel-checked each run: three_users_agree over the regenerated per-kind edge tables of the three "
+         "users/predecessor implementations (94 rows), modulo committed known findings. Tie: all analysis functions on diamonds, "
+         "ladders, every-edge graphs, kinds graph, seeded random DAGs incl. duplicates, symbolic shapes, multi-output dicts, "
+         "functions, distributed nodes vs the Lean model and vs the reflective walk over dataclass fields.",
+    design_ref="§5 C20", note="Analyses modelled as folds over the completion log.")
+
 NOT_YET = "check not built yet in this revision (see DESIGN.md §10 build order); not claimed"
 
 ALL = [f"C{n:02d}" for n in range(1, 21)]
